@@ -3,7 +3,9 @@
   Property theorems only; helper lemmas live in Tranp/Lemmas/DI.lean.
 -/
 import Tranp.Lemmas.DI
+import Tranp.Lemmas.DIState
 import Tranp.Generated.DIWiring
+import Tranp.Generated.DIState
 
 namespace Tranp.C19
 open Tranp Tranp.DI Tranp.Generated.DIWiring
@@ -631,5 +633,145 @@ example :
       .on 0 (.unbind s0), .on 0 (.invoke f8 []), .on 0 (.invoke f8 [⟨3, 0⟩])]).2
     = [.cont 0, .obj ⟨0, 8, [.ext 1]⟩, .ok, .obj ⟨2, 8, [.inst 1]⟩, .err .valueError, .ok, .err .valueError, .obj ⟨3, 8, [.ext 3]⟩] := by
   decide
+
+/-! ### whatever a factory returns: a stored instance is never made again -/
+
+/-- `resolve` of a symbol whose slot holds an instance returns that instance and does nothing else: no factory is called
+    (the instance counter does not move), no dictionary changes — in every state, whatever the instance is. The code
+    tests `found_symbol not in self.__instances` (di.py:98), so this holds as well for a factory that returned None or
+    a falsy object (the harness observes the number of factory calls for those). -/
+theorem resolve_cached_creates_nothing (fuel : Nat) (σ : State) (i : Nat) (k : Cont) (r : SymRef) (f : Factory) (o : Obj)
+    (hk : σ.conts[i]? = some k) (hf : k.injectors.get? r.accept = some f) (ho : k.instances.get? r.accept = some o) :
+    step (fuel + 1) σ (.on i (.resolve r)) = (σ, .obj o) := by
+  have hres : resolveF (fuel + 1) k σ.next r = (k, σ.next, .ok o) := by
+    unfold resolveF
+    have hin : k.innerBinded r = true := by simp [Cont.innerBinded, Dict.contains, hf]
+    cases hl : k.lazy
+    · simp [diResolveWith, hf, ho]
+    · simp [lazyResolveWith, hin, diResolveWith, hf, ho]
+  simp only [step, hk, stepCont, hres, outObj, list_set_self σ.conts i k hk]
+
+/-- non-vacuity: after the first resolve the second one is the identity on the state (here through a lazy by-name definition) -/
+example :
+    let σ := (run 2 State.init [.newLazy [(0, .named 1 f0)], .on 0 (.resolve s0)]).1
+    step 2 σ (.on 0 (.resolve s0)) = (σ, .obj ⟨0, 0, []⟩) := by decide
+
+/-! ### the state of di.py and who writes it (generated: translate/gen_di_state.py reads the ast of di.py) -/
+
+section DIStateTie
+open Tranp.Generated.DIState
+
+/-- the method of di.py a model op stands for, by the class of the receiver (`rebind` and `invoke` are inherited) -/
+def entry (lazy : Bool) : ContOp → Meth
+  | .bind _ _ => if lazy then .LazyDI_bind else .DI_bind
+  | .rebind _ _ => .DI_rebind
+  | .unbind _ => if lazy then .LazyDI_unbind else .DI_unbind
+  | .resolve _ => if lazy then .LazyDI_resolve else .DI_resolve
+  | .can _ => if lazy then .LazyDI_can_resolve else .DI_can_resolve
+  | .invoke _ _ => .DI_invoke
+
+/-- The two classes declare exactly the four dictionaries of the model `Cont` (and the translator found no other
+    attribute, class- or module-level variable, or caching decorator — it raises otherwise). -/
+theorem state_fields :
+    fields = [(false, .instances), (false, .injectors), (false, .invocations), (true, .definitions)] := by decide
+
+/-- The dictionaries each public method can write on its receiver, computed by the kernel from the GENERATED call graph
+    (direct writes of every method reachable through `self.` / `super().` calls, virtual dispatch resolved per class):
+    `can_resolve` writes nothing; `bind` the registry (and the definitions on a LazyDI); `unbind` / `rebind` also the
+    instances; `resolve` / `invoke` the instances and the annotation cache — on a LazyDI also registry and definitions
+    (`__bind_proxy`); `_clone` / `combine` write nothing on the receiver. -/
+theorem code_effects :
+    effSet recs false .DI_can_resolve = some [] ∧ effSet recs true .LazyDI_can_resolve = some [] ∧
+    effSet recs false .DI_bind = some [.injectors] ∧ effSet recs true .LazyDI_bind = some [.injectors, .definitions] ∧
+    effSet recs false .DI_unbind = some [.instances, .injectors] ∧
+    effSet recs true .LazyDI_unbind = some [.instances, .injectors, .definitions] ∧
+    effSet recs false .DI_rebind = some [.instances, .injectors] ∧
+    effSet recs true .DI_rebind = some [.instances, .injectors, .definitions] ∧
+    effSet recs false .DI_resolve = some [.instances, .invocations] ∧ effSet recs true .LazyDI_resolve = some allFields ∧
+    effSet recs false .DI_invoke = some [.instances, .invocations] ∧ effSet recs true .DI_invoke = some allFields ∧
+    effSet recs false .DI__clone = some [] ∧ effSet recs true .LazyDI__clone = some [] ∧
+    effSet recs false .DI_combine = some [] ∧ effSet recs true .LazyDI_combine = some [] := by
+  decide +kernel
+
+/-- The model writes nothing else: whatever dictionaries the code of an operation can write (`effSet` of the generated
+    table), one step of the model on a container leaves every other dictionary — and the class — exactly as it was.
+    For every container, op, fuel. -/
+theorem model_effects (fuel : Nat) (c : Cont) (nx : Nat) (op : ContOp) (fs : List Field)
+    (h : effSet recs c.lazy (entry c.lazy op) = some fs) : agreeOutside fs c (stepCont fuel c nx op).1 := by
+  obtain ⟨e1, e2, e3, e4, e5, e6, e7, e8, e9, e10, e11, e12, _⟩ := code_effects
+  cases op with
+  | can r =>
+    exact ⟨rfl, fun _ => rfl, fun _ => rfl, fun _ => rfl, fun _ => rfl⟩
+  | bind r f =>
+    have hk := Cont.bind_keeps c r f
+    cases hl : c.lazy
+    · rw [hl] at h; simp only [entry, Bool.false_eq_true, if_false] at h; rw [e3] at h; cases h
+      exact ⟨hk.1, fun _ => hk.2.1, fun hn => absurd (by simp) hn, fun _ => hk.2.2.1, fun _ => hk.2.2.2 hl⟩
+    · rw [hl] at h; simp only [entry, if_true] at h; rw [e4] at h; cases h
+      exact ⟨hk.1, fun _ => hk.2.1, fun hn => absurd (by simp) hn, fun _ => hk.2.2.1, fun hn => absurd (by simp) hn⟩
+  | unbind r =>
+    have hk := Cont.unbind_keeps c r
+    cases hl : c.lazy
+    · rw [hl] at h; simp only [entry, Bool.false_eq_true, if_false] at h; rw [e5] at h; cases h
+      exact ⟨hk.1, fun hn => absurd (by simp) hn, fun hn => absurd (by simp) hn, fun _ => hk.2.1, fun _ => hk.2.2 hl⟩
+    · rw [hl] at h; simp only [entry, if_true] at h; rw [e6] at h; cases h
+      exact ⟨hk.1, fun hn => absurd (by simp) hn, fun hn => absurd (by simp) hn, fun _ => hk.2.1, fun hn => absurd (by simp) hn⟩
+  | rebind r f =>
+    have hk := Cont.rebind_keeps c r f
+    cases hl : c.lazy
+    · rw [hl] at h; simp only [entry] at h; rw [e7] at h; cases h
+      exact ⟨hk.1, fun hn => absurd (by simp) hn, fun hn => absurd (by simp) hn, fun _ => hk.2.1, fun _ => hk.2.2 hl⟩
+    · rw [hl] at h; simp only [entry] at h; rw [e8] at h; cases h
+      exact ⟨hk.1, fun hn => absurd (by simp) hn, fun hn => absurd (by simp) hn, fun _ => hk.2.1, fun hn => absurd (by simp) hn⟩
+  | resolve r =>
+    have hk := resolveF_keep fuel c nx r
+    cases hl : c.lazy
+    · rw [hl] at h; simp only [entry, Bool.false_eq_true, if_false] at h; rw [e9] at h; cases h
+      exact ⟨hk.1, fun hn => absurd (by simp) hn, fun _ => (hk.2 hl).1, fun hn => absurd (by simp) hn, fun _ => (hk.2 hl).2⟩
+    · rw [hl] at h; simp only [entry, if_true] at h; rw [e10] at h; cases h
+      exact ⟨hk.1, fun hn => absurd (by simp [allFields]) hn, fun hn => absurd (by simp [allFields]) hn,
+        fun hn => absurd (by simp [allFields]) hn, fun hn => absurd (by simp [allFields]) hn⟩
+  | invoke f args =>
+    have hk := invokeF_keep fuel c nx f args
+    cases hl : c.lazy
+    · rw [hl] at h; simp only [entry] at h; rw [e11] at h; cases h
+      exact ⟨hk.1, fun hn => absurd (by simp) hn, fun _ => (hk.2 hl).1, fun hn => absurd (by simp) hn, fun _ => (hk.2 hl).2⟩
+    · rw [hl] at h; simp only [entry] at h; rw [e12] at h; cases h
+      exact ⟨hk.1, fun hn => absurd (by simp [allFields]) hn, fun hn => absurd (by simp [allFields]) hn,
+        fun hn => absurd (by simp [allFields]) hn, fun hn => absurd (by simp [allFields]) hn⟩
+
+/-- tightness: the model does write each of those dictionaries (so `code_effects` is exactly the model's footprint, not
+    an over-approximation of it): bind / unbind on a LazyDI, resolve on a plain DI and through a lazy definition -/
+example :
+    let c : Cont := { lazy := true }
+    (c.bind s0 f0).1.injectors ≠ c.injectors ∧ (c.bind s0 f0).1.definitions ≠ c.definitions := by decide
+example :
+    let c := (stepCont 2 ((({ lazy := true } : Cont).bind s0 f0).1) 0 (.resolve s0)).1
+    (c.unbind s0).instances ≠ c.instances ∧ (c.unbind s0).injectors ≠ c.injectors ∧ (c.unbind s0).definitions ≠ c.definitions := by
+  decide
+example :
+    let c := ((({ lazy := false } : Cont).bind s0 f0).1)
+    (stepCont 2 c 0 (.resolve s0)).1.instances ≠ c.instances ∧ (stepCont 2 c 0 (.resolve s0)).1.invocations ≠ c.invocations := by
+  decide
+example :
+    let c : Cont := { lazy := true, definitions := ⟨[(0, .named 1 f0)]⟩ }
+    (stepCont 2 c 0 (.resolve s0)).1.injectors ≠ c.injectors := by decide
+
+/-- Containers own their dictionaries, read from the source: every dictionary attribute assigned on a container that
+    `_clone` / `combine` / `instantiate` has just made receives a dict display, a dict comprehension or a `.copy()`; no
+    method returns, passes on or plainly assigns a dictionary object; nothing is written to the `other` operand and the
+    methods called on it write nothing. This is what justifies the value semantics of the model (`combine_frame`). The
+    attributes `_clone` and `combine` assign are exactly the ones `Cont.clone` / `Cont.combine` copy; the annotation
+    cache of the new container is the empty one of `__init__`. -/
+theorem containers_own_their_dicts :
+    ownsDicts recs = true ∧ otherUntouched recs = true ∧
+    (recOf recs .DI__clone).map (·.newAssigns) = some [(.instances, true), (.injectors, true)] ∧
+    (recOf recs .LazyDI__clone).map (·.newAssigns) = some [(.definitions, true)] ∧
+    (recOf recs .DI_combine).map (·.newAssigns) = some [(.instances, true), (.injectors, true)] ∧
+    (recOf recs .LazyDI_combine).map (·.newAssigns) = some [(.definitions, true)] ∧
+    (recOf recs .LazyDI_instantiate).map (·.newAssigns) = some [] := by
+  decide +kernel
+
+end DIStateTie
 
 end Tranp.C19
